@@ -12,12 +12,16 @@ def _var(code):
     return var
 
 
-def int_encode(code):
+def int_encode(code, limits=False):
     """(a): every v in [-2^100, 2^100]: in range => exact bytes and decode inverse; out of range
-    => an error, never bytes."""
+    => an error, never bytes.  With `limits` the entry carries LowLimit/HighLimit: they are advisory (a value beyond
+    them is logged), the codec's behaviour is the same."""
     name, w, signed = S301.INT_TYPES[code]
     lo, hi = S301.int_range(code)
     var = _var(code)
+    if limits:
+        var.min, var.max = max(lo, -3), min(hi, 5)
+        sx.reach("limits")
     v = sx.fresh_int("v", -BIG, BIG)
     inrange = (v >= lo) & (v <= hi)
     try:
@@ -158,9 +162,11 @@ def boolean():
     sx.reach("bool")
 
 
-def real(code):
+def real(code, limits=False):
     name = S301.NAMES[code]
     var = _var(code)
+    if limits:
+        var.min, var.max = 1.5, 2.5
     x = sx.fresh_float("x")
     sx.assume(sx.not_(sx.fisnan(x)))
     if code == S301.REAL32:
@@ -257,6 +263,25 @@ def text(code, n):
     sx.reach("text")
 
 
+def text_after_odd(code, first):
+    """decoding is a function of the bytes alone: a buffer that ends in the middle of a character (odd length, lone
+    lead surrogate, undecodable byte - the decoder ignores what it cannot decode), decoded by one variable, has no
+    influence on what the same or another variable decodes afterwards.  Concrete texts: the codecs run natively."""
+    var, other = _var(code), _var(code)
+    tag = "C04/%s/after-odd" % S301.NAMES[code]
+    try:
+        var.decode_raw(bytes.fromhex(first))
+    except Exception:          # noqa: BLE001 - rejecting the malformed buffer is fine
+        pass
+    for v, txt in ((var, "abc"), (other, "Speed 1"), (var, ""), (other, "x")):
+        data = v.encode_raw(txt)
+        exp = txt.encode("ascii" if code == S301.VISIBLE_STRING else "utf_16_le")
+        sx.prove(bytes(sx.items(data)) == exp, "encoding", tag + "/bytes")
+        sx.prove(v.decode_raw(data) == txt, "text round trip after a malformed buffer", tag + "/roundtrip")
+        sx.prove(v.decode_raw(bytearray(exp)) == txt, "decode from a bytearray", tag + "/roundtrip")
+    sx.reach("text-after-odd")
+
+
 def _cp(ch):
     from symx import symstr
     if isinstance(ch, symstr.SymStr):
@@ -266,6 +291,9 @@ def _cp(ch):
 
 def jobs(tier):
     out = []
+    for first in ("610062", "61", "3dd8", "3dd800", "ff", "6162e9", ""):
+        for code in (S301.VISIBLE_STRING, S301.UNICODE_STRING):
+            out.append(dict(func="text_after_odd", params=dict(code=code, first=first)))
     for code in S301.INT_TYPES:
         w = S301.INT_TYPES[code][1] // 8
         for n in (w + 1, 8, 9):
@@ -275,6 +303,7 @@ def jobs(tier):
         out.append(dict(func="retyped", params=dict(code1=c1, code2=c2)))
     for code in S301.INT_TYPES:
         out.append(dict(func="int_encode", params=dict(code=code)))
+        out.append(dict(func="int_encode", params=dict(code=code, limits=True)))
         out.append(dict(func="int_decode", params=dict(code=code)))
         out.append(dict(func="int_decode", params=dict(code=code, container="bytearray")))
     for code in list(S301.INT_TYPES) + [S301.BOOLEAN, S301.REAL32, S301.REAL64]:
@@ -286,6 +315,7 @@ def jobs(tier):
     out.append(dict(func="boolean", params={}))
     for code in (S301.REAL32, S301.REAL64):
         out.append(dict(func="real", params=dict(code=code)))
+        out.append(dict(func="real", params=dict(code=code, limits=True)))
         out.append(dict(func="real_decode", params=dict(code=code)))
         for order in (0, 1):
             out.append(dict(func="real_specials", params=dict(code=code, order=order)))
@@ -317,7 +347,7 @@ META = dict(
                  "CPython's struct by the native witness run and by the repo suite under the loader)",
                  "z3 FP theory for REAL32/REAL64 conversions"],
     stubs=["struct", "bytes", "bytearray", "dict displays -> SymDict", "logging -> null"],
-    required_reach=["rejected", "encoded", "decoded", "after-rejection", "retyped", "wrong-length-rejected", "len", "bool", "real",
+    required_reach=["text-after-odd", "limits", "rejected", "encoded", "decoded", "after-rejection", "retyped", "wrong-length-rejected", "len", "bool", "real",
                     "real32-overflow-rejected", "real-decode", "real-specials", "text"],
     limits=dict(quick=dict(query_timeout_ms=30000), thorough=dict(query_timeout_ms=120000, crosscheck_every=3, crosscheck_max=40)),
 )
